@@ -260,13 +260,14 @@ def expected(frames, shared, is_t0, pw=()):
     ctx = {}
     for m, a in frames:
         if m == 'contextual_override':
-            vs, cascade, _ = a
+            vs, cascade, override_attrs = a
             for k, v in vs.items():
                 old = ctx.get(k)
                 if old is not None and old[1]:
                     continue
-                ctx[k] = (v, cascade)
-    e['contextual'] = {k: v for k, (v, _) in sorted(ctx.items())}
+                ctx[k] = (v, cascade, override_attrs)
+    e['contextual'] = {k: v[0] for k, v in sorted(ctx.items())}
+    e['contextual_flags'] = {k: [v[1], v[2]] for k, v in sorted(ctx.items())}
     for key, mgr, base in (('str_kwargs', 'str_format', {'compact': False, 'verbose': True}),
                            ('repr_kwargs', 'repr_format', {'compact': True, 'verbose': True})):
         kw = dict(base)
@@ -375,6 +376,11 @@ def make_cm(mgr, a, env):
     raise ValueError(mgr)
 
 
+def _get_override(k):
+    from pyglove.core.utils import contextual as _ctx
+    return _ctx.get_contextual_override(k)
+
+
 def _raises(fn, exc):
     try:
         fn()
@@ -408,6 +414,10 @@ def observe(env, is_t0):
     for k in list(o['contextual']):
         if pg.contextual_value(k, None) != o['contextual'][k]:
             o['contextual'][k] = ('mismatch', pg.contextual_value(k, None))
+    o['contextual_flags'] = {}
+    for k in sorted(o['contextual']):
+        ov = _get_override(k)
+        o['contextual_flags'][k] = None if ov is None else [ov.cascade, ov.override_attrs]
     o['str_kwargs'] = json.loads(str(env.echo))
     o['repr_kwargs'] = json.loads(repr(env.echo))
     with pg.view_options() as vo:
@@ -671,11 +681,25 @@ def _run(case, sim, clock):
                                     do_exit(ex)
                     elif kind == 'propagate':
                         # explicit propagation of contextual overrides into another task
-                        want = expected(frames, shared, is_t0, case.get('process_wide', ()))['contextual']
+                        exp_now = expected(frames, shared, is_t0, case.get('process_wide', ()))
+                        inner = {k: 'inner' for k in ('u', 'v', 'w')}
+                        exp_nested = expected(frames + [('contextual_override', [inner, False, False])],
+                                              shared, is_t0, case.get('process_wide', ()))
+                        want = [exp_now['contextual'], exp_now['contextual_flags'],
+                                exp_nested['contextual']]
                         got = []
 
-                        def probe_fn(got=got):
-                            got.append(dict(sorted(pg.utils.all_contextual_values().items())))
+                        def probe_fn(got=got, inner=inner):
+                            vals = dict(sorted(pg.utils.all_contextual_values().items()))
+                            flags = {}
+                            for k in vals:
+                                ov = _get_override(k)
+                                flags[k] = None if ov is None else [ov.cascade, ov.override_attrs]
+                            # the nesting rule must survive propagation: an override
+                            # nested inside the propagated ones
+                            with pg.contextual_override(**inner):
+                                nested = dict(sorted(pg.utils.all_contextual_values().items()))
+                            got.append([vals, flags, nested])
                         wrapped = pg.with_contextual_override(probe_fn)
 
                         def helper(task, wrapped=wrapped, got=got, want=want, ti=ti, ei=ei):
